@@ -196,7 +196,7 @@ SLICE_PRELUDE = ['pred_helpers.h']
 
 J('oct.IntegerVectorToQuantizedOctahedralCoords', 'h_oct_intvec', ['C07', 'C02'], native=True)
 for q in (2, 8, 30):
-    J('oct.FloatVector.range.q%d' % q, 'h_oct_floatvec', ['C07'], defines=DEFS + ['-DOCT_Q=%d' % q], cbmc=['--conversion-check'], native=True, timeout=1800, cost=9, tier=None if q in (2, 8) else 'thorough')
+    J('oct.FloatVector.range.q%d' % q, 'h_oct_floatvec', ['C07'], defines=DEFS + ['-DOCT_Q=%d' % q], cbmc=['--conversion-check'], native=True, timeout=1800, cost=9, tier=None if q in (2, 8) else 'thorough', may_time_out=q not in (2, 8))
 for q in (4, 8):
     J('oct.FloatVector.dominant.q%d' % q, 'h_oct_floatvec_dominant', ['C07'], defines=DEFS + ['-DOCT_Q=%d' % q], replace=['OTB_IntegerVectorToQuantizedOctahedralCoords'], timeout=1200, cost=7)
 # 64-bit multiply + divide by the VARIABLE abs_sum: no back end relates the quotient to its bound over the full domain (measured: > 30 min), so the
@@ -204,4 +204,4 @@ for q in (4, 8):
 for q, b in ((4, 6), (8, 8)):
     J('oct.CanonicalizeIntegerVector.q%d.bounded' % q, 'h_oct_canon_intvec', ['C07', 'C02'], defines=DEFS + ['-DOCT_Q=%d' % q, '-DINTVEC_BOUND=(1<<%d)' % b], native=True, timeout=900, cost=6,
       unwind=1, unwind_reason='bounded: |components| < 2^%d (no loop; the bound is on the VALUES, stated here so that the job is reported as a bounded stand-in)' % b)
-J('oct.CanonicalizeIntegerVector', 'h_oct_canon_intvec', ['C07', 'C02'], native=True, timeout=3600, cost=8, tier='thorough')
+J('oct.CanonicalizeIntegerVector', 'h_oct_canon_intvec', ['C07', 'C02'], native=True, timeout=3600, cost=8, tier='thorough', may_time_out=True)
